@@ -93,6 +93,16 @@ func main() {
 			}
 		}
 		fmt.Printf("layout obligations=%d not-discharged=%d\n", len(obs), bad)
+	case "textorder":
+		bad := 0
+		obs := e.textOrderObligations()
+		for _, ob := range obs {
+			if ob.Status != "proved" {
+				bad++
+				fmt.Printf("%-8s %-40s %s\n", ob.Status, ob.Name, ob.Src)
+			}
+		}
+		fmt.Printf("text-order obligations=%d not-discharged=%d\n", len(obs), bad)
 	case "mods":
 		var ex []string
 		for _, n := range fs.Args() {
